@@ -51,7 +51,9 @@ fn wide_program(k: usize) -> String {
             "CLASS K{i}\nVAR PUBLIC\n    kv : DINT := DINT#{i};\nEND_VAR\nMETHOD PUBLIC Step{i} : DINT\nVAR_INPUT amt : DINT; END_VAR\n    kv := kv + amt;\n    Step{i} := kv;\nEND_METHOD\nEND_CLASS\n\n"
         ));
     }
-    s.push_str("CONFIGURATION Conf\nVAR_GLOBAL\n    trail : DINT := 0;\n");
+    // overlapping output / memory bindings whose variables disagree on the shared bits: the
+    // published image depends on the order in which the bindings are written
+    s.push_str("CONFIGURATION Conf\nVAR_GLOBAL\n    trail : DINT := 0;\n    ow AT %QW0 : WORD := 16#0100;\n    ob AT %QX0.0 : BOOL := TRUE;\n    oc AT %QB1 : BYTE := 16#7E;\n    od AT %QW0 : WORD := 16#8000;\n    mw AT %MW4 : WORD := 16#00FF;\n    mb AT %MB4 : BYTE := 16#11;\n");
     for i in 0..k {
         s.push_str(&format!("    g{i} : DINT := {i};\n"));
     }
